@@ -176,6 +176,55 @@ def aops (fixed : Bool) (st : St) : List AOp → List Op
   | [] => []
   | a :: r => a.expand fixed st ++ aops fixed (astep fixed st a) r
 
+/-! ### The send loop's control flow over the client's answers
+
+`SendCustomMessage` answers each call with: accepted (no error; the returned channel is closed once
+the message went out), pending (`ErrCustomMessagePending` + the channel of the message occupying
+the slot), or another error.  A channel may also never be closed before the agent shuts down
+(`…Hang`: the loop then leaves through `ctx.Done()`).  `loopRes` is `sendUsageReport` after a
+successful `NewReport`: how many calls it makes, how it ends, whether the client accepted the
+report, and whether it consumed a hanging answer (the agent is shut down: nothing follows).
+A script that is too short is continued with errors. -/
+
+inductive Resp where
+  | acc | accHang | pend | pendHang | err
+  deriving Repr, DecidableEq
+
+inductive LoopEnd where
+  | completed        -- completeSend called, returns nil
+  | sendErr          -- returns the client's error
+  | stillPending     -- returns ErrCustomMessagePending (the single retry was refused too)
+  | cancelled        -- returns ctx.Err()
+  deriving Repr, DecidableEq
+
+structure LoopRes where
+  sends : Nat
+  fin : LoopEnd
+  accepted : Bool
+  dead : Bool
+  deriving Repr, DecidableEq
+
+/-- the single retry after "pending, then that message went out" -/
+def retryRes : List Resp → LoopRes
+  | .acc :: _ => ⟨2, .completed, true, false⟩
+  | .accHang :: _ => ⟨2, .cancelled, true, true⟩
+  | .pend :: _ => ⟨2, .stillPending, false, false⟩
+  | .pendHang :: _ => ⟨2, .stillPending, false, true⟩
+  | .err :: _ => ⟨2, .sendErr, false, false⟩
+  | [] => ⟨2, .sendErr, false, false⟩
+
+def loopRes : List Resp → LoopRes
+  | .acc :: _ => ⟨1, .completed, true, false⟩
+  | .accHang :: _ => ⟨1, .cancelled, true, true⟩
+  | .pend :: t => retryRes t
+  | .pendHang :: _ => ⟨1, .cancelled, false, true⟩
+  | .err :: _ => ⟨1, .sendErr, false, false⟩
+  | [] => ⟨1, .sendErr, false, false⟩
+
+/-- one loop iteration with a scripted client: `completeSend` exactly when the loop completes -/
+def AOp.ofScript (script : List Resp) (mids : List (Nat × Nat)) : AOp :=
+  .tick (decide ((loopRes script).fin = .completed)) mids
+
 /-! ## Quantities of the property -/
 
 /-- every contribution the model still knows about, wherever it is -/
